@@ -54,7 +54,7 @@ def eval_formula(formula, cells=None, addr=PROBE, default_sheet='Sheet1',
     Returns (tag, stage) where stage is 'compile' or 'eval'."""
     d = dict(cells or {})
     d[addr] = formula
-    warm = bool(cells) and _warm(formula)
+    warm = bool(cells) and _warm(formula, cells)
     if warm:
         # metamorphic re-evaluation (every 4th formula with cells, chosen by
         # a hash of its text): compile with PERTURBED numeric inputs,
@@ -71,6 +71,8 @@ def eval_formula(formula, cells=None, addr=PROBE, default_sheet='Sheet1',
                 # between two inputs as it is): +1, -2, +3, ...
                 i += 1
                 d[a] = v + (i if i % 2 else -i)
+            elif a != addr and isinstance(v, str) and v[:1] != '=':
+                d[a] = v + 'q'
     try:
         model = compile_dict(d, default_sheet)
     except Exception as err:  # noqa: BLE001
@@ -93,9 +95,10 @@ def eval_formula(formula, cells=None, addr=PROBE, default_sheet='Sheet1',
     return evaluate(model, addr, ev), 'eval'
 
 
-def _warm(formula):
+def _warm(formula, cells=None):
     import zlib
     if '^' in formula or 'POWER' in formula.upper() or 'FACT' in \
             formula.upper():
         return False    # perturbed inputs could make power towers explode
-    return zlib.crc32(formula.encode('utf-8', 'replace')) % 4 == 0
+    key = formula + repr(sorted((cells or {}).items(), key=repr))
+    return zlib.crc32(key.encode('utf-8', 'replace')) % 4 == 0
